@@ -88,6 +88,8 @@ template<class P> struct ProbeModel : RansacRigidTransformationModel<P>
   const std::vector<Correspondence> & sorted() const { return this->sortedCorrespondences_; }
   const std::vector<Correspondence> & inl() const { return this->inlierCorrespondences_; }
   const std::vector<Correspondence> & best() const { return this->bestInlierCorrespondences_; }
+  // the model's own sampler member (protected): observed after every real draw() by rr.real
+  RansacRandomCorrespondences<P> & sampler() { return this->randomCorrespondences_; }
 };
 
 struct RcBase
@@ -303,6 +305,10 @@ template<class P> static std::string ransacSynth(const Toks & t)
   return std::string("ret ") + (ok ? "1" : "0") + " err " + vp::fmtD(err) + " rmse " + vp::fmtD(model.getRootMeanSquareError());
 }
 
+// private members of the sampler, read through the access tags defined in the sampler section below
+template<class P> static std::string dumpSamplerScale(RansacRandomCorrespondences<P> & o);
+template<class P> static std::string dumpSamplerState(RansacRandomCorrespondences<P> & o);
+
 template<class P> static std::string rrReal(const Toks & t)
 {
   using S = typename P::Scalar;
@@ -318,8 +324,12 @@ template<class P> static std::string rrReal(const Toks & t)
   model.loadCorrespondences(&corr, n);
   model.loadTargetNormalSet(nullptr);
   std::string o = "rounds " + std::to_string(rounds);
+  // what the model's OWN sampler member holds behind loadPointSets (scale_) and behind every real draw(): weights_,
+  // cumSumWeights_, engine state -- appended after the rounds, tied to the Lean sampler by the second pass
+  std::string smpTrail = " sampler scale" + dumpSamplerScale<P>(model.sampler());
   for (size_t r = 0; r < rounds; ++r) {
     bool ok = model.draw(sigma);
+    smpTrail += " smpdraw" + dumpSamplerState<P>(model.sampler());
     size_t ret = model.countInliers(sigma);
     o += std::string(" draw ") + (ok ? "1" : "0") + " errs";
     // errors of the sorted correspondences under the drawn candidate, recomputed from getTransformation()
@@ -334,7 +344,7 @@ template<class P> static std::string rrReal(const Toks & t)
     o += " bestrmse " + vp::fmtD(model.getRootMeanSquareError()) + " best " + std::to_string(model.best().size());
     for (const auto & c : model.best()) { o += " " + fmtCorr(c); }
   }
-  return o;
+  return o + smpTrail;
 }
 
 #define DISPATCH2(fn, ty, t) \
@@ -364,6 +374,26 @@ template<class P> struct TagReset { friend auto get(TagReset); };
 ROB_SAMPLER(Eigen::Vector2f) ROB_SAMPLER(Eigen::Vector2d) ROB_SAMPLER(Eigen::Vector3f) ROB_SAMPLER(Eigen::Vector3d)
 ROB_SAMPLER(HomogeneousCoordinates2f) ROB_SAMPLER(HomogeneousCoordinates2d)
 ROB_SAMPLER(HomogeneousCoordinates3f) ROB_SAMPLER(HomogeneousCoordinates3d)
+
+template<class P> static std::string dumpSamplerScale(RansacRandomCorrespondences<P> & o)
+{
+  const auto & s = o.*get(TagScale<P>());
+  std::string r;
+  for (int i = 0; i < PointTraits<P>::SIZE; ++i) { r += " " + vp::fmtD(static_cast<double>(s[i])); }
+  return r;
+}
+
+template<class P> static std::string dumpSamplerState(RansacRandomCorrespondences<P> & o)
+{
+  const auto & w = o.*get(TagWeights<P>());
+  const auto & c = o.*get(TagCum<P>());
+  std::string r = " w " + std::to_string(w.size());
+  for (auto x : w) { r += " " + vp::fmtD(static_cast<double>(x)); }
+  r += " c " + std::to_string(c.size());
+  for (auto x : c) { r += " " + vp::fmtD(static_cast<double>(x)); }
+  std::ostringstream os; os << o.*get(TagEngine<P>());
+  return r + " eng " + os.str();
+}
 
 struct SmpBase
 {
